@@ -160,6 +160,7 @@ def git_env(home=None):
             GIT_COMMITTER_NAME="C O Mitter", GIT_COMMITTER_EMAIL="committer@example.com",
             GIT_AUTHOR_DATE="1700000000 +0000", GIT_COMMITTER_DATE="1700000000 +0000",
             TZ="UTC", LC_ALL="C", GIT_ADVICE="0", GIT_OPTIONAL_LOCKS="0",
+            GIT_GRAFT_FILE="/dev/null",     # the reference git never follows info/grafts: closures are those of the real history
         )
         e["HOME"] = home or "/nonexistent"
         _GIT_ENV = e
